@@ -40,3 +40,30 @@ Proof.
     + contradiction.
   - exfalso. exact (open_total prof c Hb Eo).
 Qed.
+
+(* ---- get_information: the creation time as text ------------------------------------------------------------------ *)
+(* ffi/src/lib.rs renders SummaryInfo::creation_time with chrono's DateTime::to_rfc2822, which panics when the year has
+   more than four digits; a summary stream can hold any 64-bit FILETIME (up to the year 60056).  Whether the call is
+   guarded is regenerated from the source (FFI_INFO_TIME_UNGUARDED). *)
+Definition RFC2822_LIMIT_TICKS : N := 2650467744000000000.      (* 10000-01-01T00:00:00Z in 100 ns ticks since 1601 *)
+Definition ffi_info_time_with (unguarded : bool) (ticks : option N) : res unit :=
+  match ticks with
+  | None => Ok tt
+  | Some t => if unguarded && (RFC2822_LIMIT_TICKS <=? t) then Panic else Ok tt
+  end.
+Definition ffi_info_time := ffi_info_time_with FFI_INFO_TIME_UNGUARDED.
+
+Lemma ffi_info_time_guarded_now : FFI_INFO_TIME_UNGUARDED = false.
+Proof. reflexivity. Qed.
+
+(* whatever creation time the file holds, rendering it does not panic *)
+Theorem ffi_info_time_total : forall ticks, ffi_info_time ticks <> Panic.
+Proof.
+  intros ticks. unfold ffi_info_time. rewrite ffi_info_time_guarded_now.
+  destruct ticks; cbn; discriminate.
+Qed.
+
+(* the defect repaired by dea2b60: unguarded, the first instant of the year 10000 (a valid 64-bit FILETIME) panics *)
+Lemma ffi_info_time_unguarded_panics :
+  RFC2822_LIMIT_TICKS < 18446744073709551616 /\ ffi_info_time_with true (Some RFC2822_LIMIT_TICKS) = Panic.
+Proof. split; [reflexivity | vm_compute; reflexivity]. Qed.
